@@ -411,7 +411,8 @@ def run(ctx):
     for i in live:
         fam[cases[i][3]] = fam.get(cases[i][3], 0) + 1
     ctx.cov['by_family'] = fam
-    ctx.cov['impl_distinct'] = len(recs)
+    ctx.cov['inputs'] = len(recs)
+    ctx.cov['impl_distinct'] = sum(1 for o in recs if any(st[2] > 0 for r in o['runs'] for st in r['steps']))
     ctx.cov['impl_steps'] = nsteps
     ctx.cov['delivery_schedules'] = nruns
     ctx.cov['final_outcomes'] = {}
@@ -430,7 +431,8 @@ def run(ctx):
                        'with random chunkings, chunk-ext and trailer syntax and framing mutations. Short inputs are delivered at every '
                        'single split point with output capacities 1, 2, unlimited and (a share of them) one byte at a time; long ones at '
                        'seeded random schedules/capacities. Every parse round of every schedule is compared by TLC with the reference on '
-                       'the delivered prefix. Inputs are de-duplicated; impl_steps counts parse rounds, delivery_schedules counts '
+                       'the delivered prefix. Inputs are de-duplicated (inputs); non-trivial (impl_distinct / distinct_nontrivial) = the decoder got past '
+                       'at least one chunk-size line in some schedule; impl_steps counts parse rounds, delivery_schedules counts '
                        '(split schedule, capacity) pairs.')
     ctx.assumptions += ['trailer sections stay far below the 64 KB limit of Http1::Parser::grabMimeBlock (the limit is not part of the statement)',
                         'the driver drains the payload MemBuf whenever the parser asks for space, as the callers do; decoded bytes are '
